@@ -8,7 +8,7 @@ from sympy import I, Symbol
 from discopy import cat, monoidal, tensor
 from discopy.tensor import Dim, Tensor
 from discopy.quantum import gates, circuit, zx
-from discopy.quantum.gates import Rx, Ry, Rz, CU1, CRz, CRx, scalar, ClassicalGate
+from discopy.quantum.gates import Rx, Ry, Rz, CU1, CRz, CRx, scalar, ClassicalGate, Bits
 from symrun.harness import Suite
 
 x, y, z = sympy.symbols('x y z', real=True)
@@ -90,6 +90,27 @@ def run(tier):
         full = b.subs([(x, 1), (y, 2)])
         suite.fact('%s.free_symbols' % name, b.free_symbols == {x, y} and not full.free_symbols,
                    functions=['quantum.zx.Spider.subs'])
+        with suite.guard('%s.lambdify' % name, ['quantum.zx.Spider.lambdify', 'quantum.zx.Scalar.lambdify']):
+            lam = b.lambdify(x, y)(1, 2)
+            suite.fact('%s.lambdify==subs' % name, (type(lam), lam.dom, lam.cod) == (type(b), b.dom, b.cod)
+                       and sympy.simplify(sympy.sympify(lam.data) - sympy.sympify(full.data)) == 0,
+                       what='calling the lambdified ZX box on values gives the substituted box (%r vs %r)' % (lam, full),
+                       functions=['quantum.zx.Spider.lambdify', 'quantum.zx.Scalar.lambdify'])
+    with suite.guard('zx.Diagram.lambdify', ['quantum.zx.Spider.lambdify']):
+        zd = zx.Z(1, 2, x) >> zx.X(1, 1, x + y) @ zx.Z(1, 0) @ zx.scalar(y)
+        lz, sz = zd.lambdify(x, y)(0.25, 0.5), zd.subs([(x, 0.25), (y, 0.5)])
+        suite.fact('zx.Diagram.lambdify==subs', lz == sz and not lz.free_symbols, functions=['monoidal.Diagram.lambdify'],
+                   what='a lambdified ZX diagram called on values is the substituted diagram')
+    # parameter-free classical states next to symbolic boxes
+    with suite.guard('circuit[Bits >> ClassicalGate].subs', ['quantum.gates.Digits.subs']):
+        cb = Bits(0, 1) >> ClassicalGate('f', 2, 1, [x, 1 - x, y, 1 - y, 1, 0, 0, 1])
+        sb = cb.subs(x, z)
+        suite.fact('circuit[Bits >> ClassicalGate].subs.structure', (sb.dom, sb.cod, sb.offsets, [type(b_).__name__ for b_ in sb.boxes])
+                   == (cb.dom, cb.cod, cb.offsets, [type(b_).__name__ for b_ in cb.boxes]), functions=['quantum.gates.Digits.subs'])
+        suite.identity('circuit[Bits >> ClassicalGate].subs.commutes', arr(sb.eval(mixed=True)), sub_arr(cb.eval(mixed=True), x, z),
+                       extra=(x, y, z), functions=['quantum.gates.Digits.subs', 'quantum.gates.ClassicalGate.subs'])
+        suite.fact('Bits.subs', Bits(1, 0).subs(x, 1) == Bits(1, 0) and Bits(1).dagger().subs(x, 1) == Bits(1).dagger(),
+                   functions=['quantum.gates.Digits.subs'], what='a classical state has no parameter: subs returns it')
     # tensor boxes / tensors / nested data in cat.Box
     v = tensor.Box('v', Dim(1), Dim(2), [x ** 2 + y, x * y])
     suite.identity('tensor.Box.subs.commutes', arr(v.subs(x, z).eval()), sub_arr(v.eval(), x, z), extra=(x, y, z),
